@@ -105,6 +105,10 @@ type orcEdge struct {
 	InChain   bool
 	// HeadMap: a `(a -> b)[i].source-arrowhead: v {…}` style reference carries a map
 	HeadMap bool
+	// UnderscoreDecl: declared with `_`-relative endpoints (`_.a -> _.b` inside a container);
+	// Scope: index of the object in whose map it is declared (-1 = board root)
+	UnderscoreDecl bool
+	Scope          int
 	Foreign   bool
 	Inherited bool
 }
@@ -268,7 +272,20 @@ func orcSnapOf(g *d2graph.Graph) *orcSnap {
 		}
 		ee.LabelKW = orcLabelViaKeyword(e.Label.MapKey)
 		ee.RefCount = len(e.References)
+		ee.Scope = -1
 		for _, ref := range e.References {
+			if ref.ScopeObj != nil && ref.ScopeObj != g.Root {
+				if si, ok := idx[ref.ScopeObj]; ok && ee.Scope < 0 {
+					ee.Scope = si
+				}
+			}
+			if ref.Edge != nil {
+				for _, kp := range []*d2ast.KeyPath{ref.Edge.Src, ref.Edge.Dst} {
+					if kp != nil && len(kp.Path) > 0 && kp.Path[0].UnquotedString != nil && kp.Path[0].Unbox().ScalarString() == "_" {
+						ee.UnderscoreDecl = true
+					}
+				}
+			}
 			if ref.MapKey != nil && len(ref.MapKey.Edges) > 1 {
 				ee.InChain = true
 			}
